@@ -645,7 +645,7 @@ func blockPaths(b *ssa.BasicBlock, limit int) (paths [][]*ssa.BasicBlock, ok boo
 		if len(x.Succs) == 0 {
 			if len(paths) >= limit {
 				ok = false
-			} else {
+			} else if pathFeasible(cur) {
 				paths = append(paths, append([]*ssa.BasicBlock(nil), cur...))
 			}
 		}
@@ -657,6 +657,117 @@ func blockPaths(b *ssa.BasicBlock, limit int) (paths [][]*ssa.BasicBlock, ok boo
 	}
 	walk(b)
 	return
+}
+
+// pathFeasible rejects a block path that takes a branch contradicting what
+// the path itself determines: an `x == nil` / `x != nil` test whose operand,
+// resolved along the path, is the nil constant (or a value that is certainly
+// not nil: a loaded package-level sentinel such as errClose, a MakeInterface,
+// an allocation) while the path takes the other edge. Only single, definite
+// resolutions prune; everything else is kept (over-approximation).
+func pathFeasible(path []*ssa.BasicBlock) bool {
+	for i := 0; i+1 < len(path); i++ {
+		b := path[i]
+		if len(b.Instrs) == 0 {
+			continue
+		}
+		iff, ok := b.Instrs[len(b.Instrs)-1].(*ssa.If)
+		if !ok || b.Succs[0] == b.Succs[1] {
+			continue
+		}
+		bin, ok := iff.Cond.(*ssa.BinOp)
+		if !ok || (bin.Op != token.EQL && bin.Op != token.NEQ) {
+			continue
+		}
+		x := bin.X
+		if isNilConst(x) {
+			x = bin.Y
+		} else if !isNilConst(bin.Y) {
+			continue
+		}
+		leaves := resolveOnPath(x, path[:i+1])
+		if len(leaves) != 1 {
+			continue
+		}
+		isNil, known := false, false
+		switch l := leaves[0].(type) {
+		case *ssa.Const:
+			if l.IsNil() {
+				isNil, known = true, true
+			}
+		case *ssa.MakeInterface, *ssa.Alloc, *ssa.MakeClosure, *ssa.MakeMap, *ssa.MakeChan, *ssa.MakeSlice:
+			isNil, known = false, true
+		case *ssa.UnOp:
+			if g, isG := l.X.(*ssa.Global); isG && l.Op == token.MUL && sentinelGlobal(g) {
+				isNil, known = false, true // initialised once in init with a fresh value, never assigned again
+			}
+		}
+		if !known {
+			continue
+		}
+		takenTrue := path[i+1] == b.Succs[0]
+		condTrue := isNil == (bin.Op == token.EQL)
+		if takenTrue != condTrue {
+			return false
+		}
+	}
+	return true
+}
+
+var sentinelCache = map[*ssa.Global]bool{}
+
+// sentinelGlobal: a package-level variable whose only store in its package is
+// in the package initialiser and stores a call result or MakeInterface (e.g.
+// `var errClose = errors.New(...)`), so that a load of it is never nil.
+func sentinelGlobal(g *ssa.Global) bool {
+	if v, ok := sentinelCache[g]; ok {
+		return v
+	}
+	ok := false
+	n := 0
+	if g.Pkg != nil {
+		for _, m := range g.Pkg.Members {
+			fn, isFn := m.(*ssa.Function)
+			if !isFn {
+				continue
+			}
+			var all []*ssa.Function
+			all = append(all, fn)
+			for k := 0; k < len(all); k++ {
+				all = append(all, all[k].AnonFuncs...)
+			}
+			for _, f := range all {
+				for _, i := range instrs(f) {
+					if st, isSt := i.(*ssa.Store); isSt && st.Addr == ssa.Value(g) {
+						n++
+						switch st.Val.(type) {
+						case *ssa.Call, *ssa.MakeInterface:
+							ok = f.Name() == "init"
+						}
+					}
+				}
+			}
+		}
+		// methods
+		for _, m := range g.Pkg.Members {
+			if t, isT := m.(*ssa.Type); isT {
+				for _, T := range []types.Type{t.Type(), types.NewPointer(t.Type())} {
+					ms := g.Pkg.Prog.MethodSets.MethodSet(T)
+					for k := 0; k < ms.Len(); k++ {
+						if f := g.Pkg.Prog.MethodValue(ms.At(k)); f != nil {
+							for _, i := range instrs(f) {
+								if st, isSt := i.(*ssa.Store); isSt && st.Addr == ssa.Value(g) {
+									n++
+								}
+							}
+						}
+					}
+				}
+			}
+		}
+	}
+	sentinelCache[g] = ok && n == 1
+	return sentinelCache[g]
 }
 
 // resolveOnPath resolves v to the set of non-phi values it can take when
@@ -1496,6 +1607,16 @@ func errClass(v ssa.Value) string {
 		return "make:" + x.X.Type().String()
 	}
 	return "other"
+}
+
+// isFreshErr: the value is an error made on the spot (fmt.Errorf, errors.New)
+// or a value boxed into the error interface.
+func isFreshErr(v ssa.Value) bool {
+	switch c := errClass(v); {
+	case c == "call:fmt.Errorf", c == "call:errors.New", strings.HasPrefix(c, "make:"):
+		return true
+	}
+	return false
 }
 
 // returnClassesFrom enumerates the paths from block b to a return and
